@@ -1585,13 +1585,13 @@ def r_cache(m, rep, R):
                 core_fn = _call_op(m, core_name)
                 cpr = [p.name for p in cxx.params_of(core_fn)]
                 args = r[2]
+                if len(cpr) != 3:
+                    raise AnalysisError('%s:%s the shared rule lookup %s takes %d parameters (callback and the two ids expected): not recognised' % (H, core_fn.line, core_name, len(cpr)))
                 okw = len(args) == len(cpr) == 3 and args[0] == V(cbparam) and args[1] == V(pr[0]) and \
                     (args[2] == V(pr[1]) if kind == 'binary' else not [x for x in subterms(args[2]) if x[0] in ('var', 'mem', 'call', 'mcall', 'idx')])
                 rep.check(okw, R, w, 'cache:%s:wrapper' % kind,
                           '%s lambda forwards (%s callback, its own ids%s) to the shared lookup %s' % (kind, kind, '' if kind == 'binary' else ', UINT_MAX', core_name),
                           '%s lambda forwards %s to %s' % (kind, [show(a) for a in args], core_name))
-                if len(cpr) != 3:
-                    raise AnalysisError('%s:%s the shared rule lookup %s takes %d parameters (callback and the two ids expected): not recognised' % (H, core_fn.line, core_name, len(cpr)))
                 bind = {'cb': cpr[0], 'x': cpr[1], 'y': cpr[2]}
             elif r[0] == 'call' and isinstance(r[1], str) and r[1] in getattr(m.env, 'functions', {}):
                 # ... or around a helper function of the header that gets cache, scaffold, callback and ids as arguments
